@@ -42,10 +42,20 @@
           C02_HS_threshold_full (completeness at stop for every fuel: C02_HS_threshold_complete);
         - no duplicates with a filter installed: C02_HS_filter_nodup, C02_HS_bucket_filter_nodup
           (the liveness half with a filter is in Props/C12_HS.lean).
-  NOT proved: recursive grammars and state-threading TTCFGs (the statement is false there), and
-  everything about the unambiguous-grammar machine (UHeapSearch); they are checked on every generated
-  case against the independent language oracle and by exact correspondence of the model with the
-  implementation.
+    * UNAMBIGUOUS-GRAMMAR MACHINE (u_heap_search.py after fix 7721229: UHSEnumerator, UHeapSearch, BucketSearch;
+      model PS/Model/Enum/UHeapSearch.lean with `kway = true`; proofs PS/Proofs/Enum/U*.lean), section
+      "unambiguous machine" at the end of this file:
+        - soundness as a state invariant, any grammar: C02_HS_U_sound (+ _inv_init, _query_sound, _sound_step,
+          _stored_priority, _start_priority);
+        - no duplicates on unambiguous grammars, every prefix and fuel: C02_HS_U_nodup, C02_HS_U_nodup_det,
+          C02_HS_U_filter_nodup;
+        - acyclic unambiguous grammars with several start symbols: completeness when the generator stops
+          (C02_HS_U_complete, C02_HS_U_exactly_once, C02_HS_U_exhausted_complete), termination
+          (C02_HS_U_query_total, C02_HS_U_stops) and the full statement C02_HS_U_full (heap search) /
+          C02_HS_U_bucket_full (bucket search).
+  NOT proved: recursive grammars and state-threading TTCFGs (the statement is false there), thresholds of
+  the unambiguous machine; they are checked on every generated case against the independent language
+  oracle and by exact correspondence of the model with the implementation.
 -/
 import PS.Model.Enum.HeapSearch
 import PS.Model.Enum.UHeapSearch
@@ -58,6 +68,13 @@ import PS.Proofs.Enum.HSCompleteCheck
 import PS.Proofs.Enum.HSStops
 import PS.Proofs.Enum.HSPrologueTotal
 import PS.Proofs.Enum.GInst
+import PS.Proofs.Enum.USoundRun
+import PS.Proofs.Enum.UBridge
+import PS.Proofs.Enum.UUnamb
+import PS.Proofs.Enum.UCompleteRun
+import PS.Proofs.Enum.UOrderCheck
+import PS.Proofs.Enum.UTotalCheck
+import PS.Proofs.Enum.UBucket
 namespace PS.C02HS
 open PS PS.G
 
@@ -483,5 +500,260 @@ example : ∃ k g' out, take cEt 28 k (Gen.new cG) [] = some (g', out, true) ∧
 example : (take cEt 28 10 (Gen.new cG) []).map (fun r => (r.2.1.length, r.2.2)) = some (4, true) := by decide +kernel
 example : (take cEb 28 10 (Gen.new cG) []).map (fun r => (r.2.1.length, r.2.2)) = some (5, true) := by decide +kernel
 end Generic
+
+/-! ## unambiguous machine -/
+section UMachine
+open PS.UHS
+variable {U π : Type} [DecidableEq U]
+
+/-- SOUNDNESS of the heap search / bucket search on unambiguous grammars (`UHSEnumerator`,
+    u_heap_search.py, the code after fix 7721229: `Env.kway = true`) as a state invariant.
+    `UHS.SInv E s`: for every non-terminal `nt`
+    (1) every element `(priority, program)` of `heaps[nt]` is in `hash_table_program[nt]` and `priority`
+        is the priority of a derivation of `program` from `nt` (`UHS.HasPrio`: the rule priorities
+        combined from left to right; heap search: the product of the rule weights),
+    (2) every program of `hash_table_program[nt]`, every value of `succ[nt]`, `max_priority[nt]`,
+        `max_priority[(nt, P, v)]` is derivable from `nt`,
+    (3) `_keys[nt][program] = v` is an alternative of the head of `program` from whose non-terminals
+        the arguments are derivable,
+    (4) the memo table of `compute_priority` (`probabilities` / `bucket_tuples`) holds priorities of derivations,
+    (5) every element `(priority, program, start)` of the start heap has `start` a start symbol and
+        `priority = adjust_priority_for_start(priority of a derivation of program from start)`.
+    It holds for the fresh enumerator … -/
+theorem C02_HS_U_inv_init (E : UHS.Env U π) : UHS.SInv E (UHS.St.empty E.G) := sinv_empty E
+
+/-- … `query(S, program)` keeps it and returns a program derivable from `S` (any priority type,
+    threshold, filter, fuel; `UHS.GHyp`: dict keys distinct, the alternatives of one symbol have
+    one arity, the code after fix 7721229) … -/
+theorem C02_HS_U_query_sound (E : UHS.Env U π) (H : GHyp E) (n : Nat) (s s' : UHS.St U π) (nt : UHS.UNT U)
+    (p r : Option Prog) (hs : UHS.SInv E s) (h : UHS.query E n s nt p = some (s', r)) :
+    UHS.SInv E s' ∧ ∀ q, r = some q → Der E q nt :=
+  big_sound E H (big_of_query E h) hs trivial
+
+/-- … and so does every `next(generator)`, which yields a program derivable from a start symbol -/
+theorem C02_HS_U_sound_step (E : UHS.Env U π) (H : GHyp E) (fuel k : Nat) (s s' : UHS.St U π) (r : Option Prog)
+    (hs : UHS.SInv E s) (h : UHS.next E fuel k s = some (s', r)) :
+    UHS.SInv E s' ∧ ∀ p, r = some p → ∃ nt w, startW E nt = some w ∧ Der E p nt :=
+  hs.next H k h
+
+/-- the stored priority is the priority of a derivation of the program -/
+theorem C02_HS_U_stored_priority (E : UHS.Env U π) (s : UHS.St U π) (hs : UHS.SInv E s) (nt : UHS.UNT U)
+    (e : π × Prog) (he : e ∈ s.heapOf nt) : HasPrio E e.2 nt e.1 ∧ e.2 ∈ s.seenOf nt :=
+  ⟨hs.heap_prio nt e he, hs.heap_seen nt e he⟩
+
+/-- on the start heap: the priority adjusted by the weight of the start symbol -/
+theorem C02_HS_U_start_priority (E : UHS.Env U π) (s : UHS.St U π) (hs : UHS.SInv E s)
+    (e : π × Prog × UHS.UNT U) (he : e ∈ s.startHeap) :
+    ∃ w pr, startW E e.2.2 = some w ∧ HasPrio E e.2.1 e.2.2 pr ∧ e.1 = E.ops.adjust pr w :=
+  hs.start_ok e he
+
+/-- **SOUNDNESS**: whatever heap search / bucket search on an unambiguous grammar yields is a member
+    of the grammar — `U.genU`, the specification of PS/Model/Ucfg.lean (a derivation from a start
+    symbol exists), for the rule table stripped of its weights.  Every grammar (recursive or not,
+    ambiguous or not), priority type, threshold, filter, fuel, number of steps. -/
+theorem C02_HS_U_sound (E : UHS.Env U π) (H : GHyp E) (d : UHS.UNT U) (fuel k : Nat) (s' : UHS.St U π)
+    (out : List Prog) (b : Bool) (h : UHS.take E fuel k (UHS.St.empty E.G) [] = some (s', out, b)) :
+    ∀ p ∈ out, PS.U.genU (E.G.toUCFG d) p = true := by
+  intro p hp
+  rw [← derStart_iff_genU]
+  exact ((sinv_empty E).take H k (by intro q hq; cases hq) h).2 p hp
+
+/-! non-vacuity: three start symbols, two alternatives for `+` at `S2`:
+    `S0 → 1 | var0`, `S1 → + S0 S0`, `S2 → + S0 S1 | + S1 S0`; 2 + 4 + 16 = 22 programs -/
+def Gu : UG Nat :=
+  { starts := [(s2, 1/2), (s0, 1/4), (s1, 1/4)],
+    rules := [(s1, [(plus, [([s0, s0], 1)])]), (s0, [(one, [([], 1/4)]), (v0, [([], 3/4)])]),
+              (s2, [(plus, [([s0, s1], 3/5), ([s1, s0], 2/5)])])] }
+def Eu : UHS.Env Nat Rat := { G := Gu, ops := UHS.probOps 0, filter := fun _ => true, kway := true }
+def Eub : UHS.Env Nat UHS.Bucket := { G := Gu, ops := UHS.bucketOps 3 false, filter := fun _ => true, kway := true }
+
+theorem Eu_hyp : GHyp Eu := GHyp.of_checks Eu (by decide) (by decide) rfl
+theorem Eub_hyp : GHyp Eub := GHyp.of_checks Eub (by decide) (by decide) rfl
+
+/-- the machine yields the 22 programs and stops -/
+example : (UHS.take Eu 60 30 (UHS.St.empty Gu) []).map (fun r => (r.2.1.length, r.2.2)) = some (22, true) := by
+  decide +kernel
+example : (UHS.take Eub 60 30 (UHS.St.empty Gu) []).map (fun r => (r.2.1.length, r.2.2)) = some (22, true) := by
+  decide +kernel
+
+example : ∀ s' out b, UHS.take Eu 60 30 (UHS.St.empty Gu) [] = some (s', out, b) →
+    ∀ p ∈ out, PS.U.genU (Gu.toUCFG s0) p = true :=
+  fun s' out b h => C02_HS_U_sound Eu Eu_hyp s0 60 30 s' out b h
+example : ∀ s' out b, UHS.take Eub 60 30 (UHS.St.empty Gu) [] = some (s', out, b) →
+    ∀ p ∈ out, PS.U.genU (Gu.toUCFG s0) p = true :=
+  fun s' out b h => C02_HS_U_sound Eub Eub_hyp s0 60 30 s' out b h
+
+/-- NO DUPLICATES, the inner step: `UHS.NInv E s` — for every non-terminal the programs of `heaps[nt]`
+    are pairwise distinct and belong to `hash_table_program[nt]`; every value of `succ[nt]` belongs to
+    `hash_table_program[nt]` and is not in `heaps[nt]` any more; `succ[nt]` is injective.  `query` keeps
+    it, only adds entries to the `succ` tables (`UHS.Stable`) and returns the entry `succ[nt][program]`
+    of the new state.  Any grammar, priority type, threshold; with a non-empty `deleted` set under
+    `UHS.NoReent` (carried by `NInv.del_ok`). -/
+theorem C02_HS_U_query_nodup (E : UHS.Env U π) (H : GHyp E) (n : Nat) (s s' : UHS.St U π) (nt : UHS.UNT U)
+    (p r : Option Prog) (hs : NInv E s) (hss : UHS.SInv E s) (h : UHS.query E n s nt p = some (s', r)) :
+    NInv E s' ∧ Stable s s' ∧ ∀ q, r = some q → AList.lookup p (s'.succOf nt) = some q :=
+  big_nodup E H (big_of_query E h) hss trivial hs trivial
+
+/-- **NO DUPLICATES** (every prefix, every fuel): the sequence yielded by heap search / bucket search
+    on an UNAMBIGUOUS grammar has no repeated program.  `hunamb`: the specification `U.unambiguousOn`
+    (at most one derivation from at most one start symbol) for every program — only the consequence
+    "the languages of two start symbols are disjoint" is used; `hstarts`: `G.starts` is a set;
+    `hf`: no filter (with a filter: `C02_HS_U_filter_nodup`).  Any grammar shape (recursive too),
+    any priority type, threshold.
+    Proof: the programs taken from one start symbol are the chain of `succ[start]` from the sentinel,
+    which cannot repeat because `succ[start]` is injective (`UHS.chainR_nodup`); the start heap holds at
+    most one entry per start symbol (`UHS.GInv`). -/
+theorem C02_HS_U_nodup (E : UHS.Env U π) (H : GHyp E) (d : UHS.UNT U)
+    (hunamb : ∀ p, PS.U.unambiguousOn (E.G.toUCFG d) p = true) (hstarts : (E.G.starts.map (·.1)).Nodup)
+    (hf : ∀ p, E.filter p = true) (fuel k : Nat) (s' : UHS.St U π) (out : List Prog) (b : Bool)
+    (h : UHS.take E fuel k (UHS.St.empty E.G) [] = some (s', out, b)) : out.Nodup :=
+  (take_nodup E ⟨H, sdisj_of_unambiguous E d hunamb, hstarts, Or.inl hf⟩ fuel k s' out b h).1
+
+/-- the same from the decidable criterion `UHS.BUDet` (a symbol and the non-terminals of its arguments
+    determine the non-terminal: the shape produced by `UCFG.from_DFTA`), which implies unambiguity -/
+theorem C02_HS_U_nodup_det (E : UHS.Env U π) (H : GHyp E) (hdet : BUDet E) (hstarts : (E.G.starts.map (·.1)).Nodup)
+    (hf : ∀ p, E.filter p = true) (fuel k : Nat) (s' : UHS.St U π) (out : List Prog) (b : Bool)
+    (h : UHS.take E fuel k (UHS.St.empty E.G) [] = some (s', out, b)) : out.Nodup :=
+  (take_nodup E ⟨H, sdisj_of_budet E hdet, hstarts, Or.inl hf⟩ fuel k s' out b h).1
+
+/-- with a filter installed, when `__add_successors__(p, S)` does not re-enter `query(S, ·)`
+    (`UHS.NoReent`; true on acyclic grammars): no duplicates, and only accepted programs are yielded -/
+theorem C02_HS_U_filter_nodup (E : UHS.Env U π) (H : GHyp E) (hdisj : SDisj E)
+    (hstarts : (E.G.starts.map (·.1)).Nodup) (hre : NoReent E) (fuel k : Nat) (s' : UHS.St U π) (out : List Prog)
+    (b : Bool) (h : UHS.take E fuel k (UHS.St.empty E.G) [] = some (s', out, b)) :
+    out.Nodup ∧ ∀ p ∈ out, E.filter p = true :=
+  take_nodup E ⟨H, hdisj, hstarts, Or.inr hre⟩ fuel k s' out b h
+
+theorem Eu_det : BUDet Eu := budet_of_check Eu (by decide)
+theorem Eub_det : BUDet Eub := budet_of_check Eub (by decide)
+
+example : ∀ s' out b, UHS.take Eu 60 30 (UHS.St.empty Gu) [] = some (s', out, b) → out.Nodup :=
+  fun s' out b h => C02_HS_U_nodup_det Eu Eu_hyp Eu_det (by decide) (fun _ => rfl) 60 30 s' out b h
+example : ∀ s' out b, UHS.take Eub 60 30 (UHS.St.empty Gu) [] = some (s', out, b) → out.Nodup :=
+  fun s' out b h => C02_HS_U_nodup_det Eub Eub_hyp Eub_det (by decide) (fun _ => rfl) 60 30 s' out b h
+
+/-- **COMPLETENESS WHEN THE GENERATOR STOPS** — unambiguous-grammar machine (heap search
+    `UHeapSearch` or any priority type with a monotone `combine`; no threshold, no filter) on an ACYCLIC
+    UNAMBIGUOUS grammar with several start symbols: if after `k` calls of `next` the generator has raised
+    `StopIteration`, every member of the grammar (`U.genU`) was yielded.
+    `UHS.RHyp` (decidable on a literal grammar: `UHS.rhyp_prob`): dict keys distinct, `rank` decreases
+    along the alternatives, alternatives unambiguous, start languages disjoint, weights non-negative.
+    Proof: the invariant `UHS.CInv` — (I2) `hash_table_program[S]` = heap ∪ popped, (I3) every argument
+    position of every popped program has its successor program pushed or an exhausted argument
+    non-terminal, the initial program of every alternative was pushed — is kept by every call
+    (`UHS.big_order`); an exhausted non-terminal stays exhausted (`UHS.big_emptyKeep`); an exhausted
+    non-terminal has popped its whole language (`UHS.exhausted_complete`: induction on the rank, then a
+    sweep over the argument positions along the successor chains); when the start heap is empty every
+    start symbol answered `None` and everything it popped was handed over (`UHS.OC`). -/
+theorem C02_HS_U_complete (E : UHS.Env U π) (rank : UHS.UNT U → Nat) (Good : π → Prop) (R : RHyp E rank Good)
+    (hf : ∀ p, E.filter p = true) (d : UHS.UNT U) (fuel k : Nat) (s' : UHS.St U π) (out : List Prog)
+    (h : UHS.take E fuel k (UHS.St.empty E.G) [] = some (s', out, true)) :
+    ∀ p, PS.U.genU (E.G.toUCFG d) p = true → p ∈ out := by
+  intro p hp
+  obtain ⟨nt, w, hw, hd⟩ := (derStart_iff_genU E d p).mpr hp
+  exact take_complete R fuel k s' out h p nt w hw hd (PS.HG.clean_of_all E.filter hf p)
+
+/-- **exactly once**: when the generator stops, its output lists the language without repetition -/
+theorem C02_HS_U_exactly_once (E : UHS.Env U π) (rank : UHS.UNT U → Nat) (Good : π → Prop) (R : RHyp E rank Good)
+    (hf : ∀ p, E.filter p = true) (d : UHS.UNT U) (fuel k : Nat) (s' : UHS.St U π) (out : List Prog)
+    (h : UHS.take E fuel k (UHS.St.empty E.G) [] = some (s', out, true)) :
+    out.Nodup ∧ ∀ p, p ∈ out ↔ PS.U.genU (E.G.toUCFG d) p = true :=
+  ⟨(take_nodup E R.nhyp fuel k s' out true h).1,
+   fun p => ⟨fun hp => C02_HS_U_sound E R.ohyp.ghyp d fuel k s' out true h p hp,
+             fun hp => C02_HS_U_complete E rank Good R hf d fuel k s' out h p hp⟩⟩
+
+/-- the inner statement: in a quiescent state, an exhausted non-terminal has popped every program
+    derivable from it all of whose sub-programs are accepted by the filter (`HG.clean`; no filter: every
+    derivable program, `HG.clean_of_all`) -/
+theorem C02_HS_U_exhausted_complete (E : UHS.Env U π) (rank : UHS.UNT U → Nat) (Good : π → Prop) (H : OHyp E rank Good)
+    (s : UHS.St U π) (hb : Base E s) (hall : All E rank s) (nt : UHS.UNT U) (hf : Full E rank s nt)
+    (hempty : s.heapOf nt = []) (p : Prog) (hg : Der E p nt) (hcl : PS.HG.clean E.filter p = true) :
+    ∃ k, AList.lookup k (s.succOf nt) = some p :=
+  exhausted_complete H hb hall (rank nt) nt rfl hf hempty p hg hcl
+
+def uRank2 (nt : UHS.UNT Nat) : Nat := nt.2
+
+theorem Eu_rhyp : RHyp Eu uRank2 (fun v : Rat => 0 ≤ v) :=
+  rhyp_prob Eu uRank2 rfl rfl (by decide) (by decide) (by decide) (by decide) (by decide) (by decide) (by decide)
+    (by decide +kernel) (by decide)
+
+/-- on the three-start grammar the generator stops after its 22 programs, which are exactly the language -/
+example : ∀ s' out, UHS.take Eu 60 30 (UHS.St.empty Gu) [] = some (s', out, true) →
+    out.Nodup ∧ ∀ p, p ∈ out ↔ PS.U.genU (Gu.toUCFG s0) p = true :=
+  fun s' out h => C02_HS_U_exactly_once Eu uRank2 _ Eu_rhyp (fun _ => rfl) s0 60 30 s' out h
+
+/-- **every `query(S, program)` returns** (no KeyError, no failed assertion, fuel not exhausted) with fuel
+    `(rank S + 1) · (L + Al + A + 6 + D)` in a state that satisfies the invariants, `L` / `Al` / `A` bounding
+    the number of rules of a non-terminal, of alternatives of a rule and of arguments (`UHS.THyp`: also
+    every non-terminal used has a row and no row is empty), `D` bounding the number of rejected programs
+    (the pop loop skips each of them at most once per non-terminal: `UHS.addSucc_proc`, `UHS.undone_lt`) -/
+theorem C02_HS_U_query_total (E : UHS.Env U π) (rank : UHS.UNT U → Nat) (Good : π → Prop) (H : OHyp E rank Good)
+    (L Al A D : Nat) (T : THyp E L Al A) (nt : UHS.UNT U) (hrow : ∃ rs, AList.lookup nt E.G.rules = some rs)
+    (n : Nat) (s : UHS.St U π) (p : Option Prog) (hn : (rank nt + 1) * (L + Al + A + 6 + D) ≤ n)
+    (hb : Base E s) (hc : CacheC s) (hD : s.deleted.length ≤ D) (hpre : OPre E rank (.query nt p) s) :
+    ∃ res, UHS.query E n s nt p = some res :=
+  (low_all H T D (rank nt + 1)).query nt (Nat.lt_succ_self _) hrow n s p hn hb hc hD hpre
+
+/-- **TERMINATION** (with or without filter): with fuel at least `(rank start + 1) · (L + Al + A + 6 + N)` for every
+    start symbol and at least `N + 1`, `N` the length of the finite list `UHS.langList` that contains the
+    language, the generator raises `StopIteration` after finitely many `next` (every `next` returns:
+    `UHS.next_total`; the programs taken from the start heap are distinct members of a finite language) -/
+theorem C02_HS_U_stops (E : UHS.Env U π) (rank : UHS.UNT U → Nat) (Good : π → Prop) (R : RHyp E rank Good)
+    (L Al A : Nat) (T : THyp E L Al A) (fuel : Nat)
+    (hf : FuelOK E rank (L + Al + A + 6 + (langList E rank).length) fuel) (hN : (langList E rank).length + 1 ≤ fuel) :
+    ∃ k s' out, UHS.take E fuel k (UHS.St.empty E.G) [] = some (s', out, true) :=
+  take_stops R T hf hN
+
+/-- **C02 FOR THE UNAMBIGUOUS-GRAMMAR MACHINE ON ACYCLIC UNAMBIGUOUS GRAMMARS (full statement)**: for every
+    sufficient fuel there is a number `k` of `next` steps after which the generator has stopped, and its
+    output lists the language `U.genU` (several start symbols) without repetition: every program exactly once.
+    Heap search = `UHeapSearch` with threshold 0 and no filter (`UHS.rhyp_prob`); the theorem holds for
+    every priority type with a strict weak order on the priorities of derivations and a monotone `combine`. -/
+theorem C02_HS_U_full (E : UHS.Env U π) (rank : UHS.UNT U → Nat) (Good : π → Prop) (R : RHyp E rank Good)
+    (hnf : ∀ p, E.filter p = true) (L Al A : Nat) (T : THyp E L Al A) (d : UHS.UNT U) (fuel : Nat)
+    (hf : FuelOK E rank (L + Al + A + 6 + (langList E rank).length) fuel) (hN : (langList E rank).length + 1 ≤ fuel) :
+    ∃ k s' out, UHS.take E fuel k (UHS.St.empty E.G) [] = some (s', out, true) ∧
+      out.Nodup ∧ ∀ p, p ∈ out ↔ PS.U.genU (E.G.toUCFG d) p = true := by
+  obtain ⟨k, s', out, h⟩ := take_stops R T hf hN
+  exact ⟨k, s', out, h, C02_HS_U_exactly_once E rank Good R hnf d fuel k s' out h⟩
+
+/-- the example grammar: at most 2 rules per non-terminal, 2 alternatives, 2 arguments; max rank 2; the list
+    `langList` has 22 entries: enough fuel is 3 · (2 + 2 + 2 + 6 + 22) = 102 -/
+theorem Eu_thyp : THyp Eu 2 2 2 := thyp_of_check Eu 2 2 2 (by decide)
+
+theorem Eu_langList : (langList Eu uRank2).length = 22 := by decide +kernel
+
+example : ∃ k s' out, UHS.take Eu 102 k (UHS.St.empty Gu) [] = some (s', out, true) ∧
+    out.Nodup ∧ ∀ p, p ∈ out ↔ PS.U.genU (Gu.toUCFG s0) p = true :=
+  C02_HS_U_full Eu uRank2 _ Eu_rhyp (fun _ => rfl) 2 2 2 Eu_thyp s0 102
+    (by rw [Eu_langList]; exact fuelOK_of_check Eu uRank2 34 102 (by decide)) (by rw [Eu_langList]; decide)
+
+/-- with that fuel the machine does stop after its 22 programs (kernel evaluation) -/
+example : (UHS.take Eu 102 30 (UHS.St.empty Gu) []).map (fun r => (r.2.1.length, r.2.2)) = some (22, true) := by
+  decide +kernel
+
+/-- **C02 FOR THE UNAMBIGUOUS BUCKET SEARCH** (`BucketSearch` of u_heap_search.py, no filter) on acyclic
+    unambiguous grammars with several start symbols: the instance of `C02_HS_U_full` for bucket tuples
+    (`UHS.rhyp_bucket`: `Bucket.__lt__` is a strict weak order on the tuples of one size, `+=` and
+    `add_prob_uniform` are monotone) — the generator stops and yields every program exactly once -/
+theorem C02_HS_U_bucket_full (E : UHS.Env U UHS.Bucket) (rank : UHS.UNT U → Nat) (size : Nat)
+    (R : RHyp E rank (fun b : UHS.Bucket => b.length = size)) (hnf : ∀ p, E.filter p = true) (L Al A : Nat)
+    (T : THyp E L Al A) (d : UHS.UNT U) (fuel : Nat)
+    (hf : FuelOK E rank (L + Al + A + 6 + (langList E rank).length) fuel) (hN : (langList E rank).length + 1 ≤ fuel) :
+    ∃ k s' out, UHS.take E fuel k (UHS.St.empty E.G) [] = some (s', out, true) ∧
+      out.Nodup ∧ ∀ p, p ∈ out ↔ PS.U.genU (E.G.toUCFG d) p = true :=
+  C02_HS_U_full E rank _ R hnf L Al A T d fuel hf hN
+
+theorem Eub_rhyp : RHyp Eub uRank2 (fun b : UHS.Bucket => b.length = 3) :=
+  rhyp_bucket Eub uRank2 3 rfl rfl (by decide) (by decide) (by decide) (by decide) (by decide) (by decide) (by decide)
+    (by decide)
+
+theorem Eub_langList : (langList Eub uRank2).length = 22 := by decide +kernel
+
+example : ∃ k s' out, UHS.take Eub 102 k (UHS.St.empty Gu) [] = some (s', out, true) ∧
+    out.Nodup ∧ ∀ p, p ∈ out ↔ PS.U.genU (Gu.toUCFG s0) p = true :=
+  C02_HS_U_bucket_full Eub uRank2 3 Eub_rhyp (fun _ => rfl) 2 2 2 (thyp_of_check Eub 2 2 2 (by decide)) s0 102
+    (by rw [Eub_langList]; exact fuelOK_of_check Eub uRank2 34 102 (by decide)) (by rw [Eub_langList]; decide)
+end UMachine
 
 end PS.C02HS
